@@ -49,8 +49,8 @@ LEVEL_NOTE = ("trusted: Lean kernel + propext/Classical.choice/Quot.sound, the h
               "identity of FmtStr / run list / run / attribute-dict objects, memo flags, runs), harness/extract_more_heap.py, the wire "
               "codec. The frame and cache theorems are proofs about that model. The GUARDS clause (item assignment and attribute-dict "
               "mutation raise) is carried by the tie and the guard oracle on the real code plus the regenerated table theorem "
-              "C13_guards_table; the Lean guard theorems only record the model's reading. Known finding D24 is excluded by an "
-              "explicit hypothesis and witnessed in the model. splice with end < start and lazily consumed generators are outside "
+              "C13_guards_table; the Lean guard theorems only record the model's reading. D24 (re-callable __init__) is repaired; what an "
+              "in-place change would do is a regression theorem. splice with end < start and lazily consumed generators are outside "
               "the model and judged by the oracle alone")
 TRUSTED = ["C13: the heap model's notion of object identity/aliasing (lean/Curtsies/Model/Heap.lean), validated per run by "
            "comparing `is`-structure of FmtStr objects, run lists and run objects; value-level data the model takes as "
@@ -60,7 +60,6 @@ WIDE, COMB = widthenv.WIDE, widthenv.COMB
 ALPHABET = "abcab " + WIDE + COMB
 RARE = "\n\x01"
 KEYS = wire.SORTED_KEYS
-KNOWN_INIT_ID = "D24"
 
 # ------------------------------------------------------------------------------------------------------------
 # non-perturbing views
@@ -398,16 +397,7 @@ def exec_step(d, pool, gens=None):
         def run():
             getattr(f.chunks[d["k"]].atts, d["name"])(*d["args"])
             return ("none", None)
-        after = dict(f.chunks[d["k"]].atts)
-        try:
-            getattr(after, d["name"])(*d["args"])
-        except Exception:  # noqa: BLE001
-            pass
-        try:
-            after_tok = enc_attsd(after)
-        except wire.Unencodable:
-            after_tok = "-"
-        return ["attsmut", str(a), str(d["k"]), d["name"], after_tok], run
+        return ["attsmut", str(a), str(d["k"]), d["name"]], run
     raise KeyError(op)
 
 
@@ -458,8 +448,7 @@ def run_program(case, collect=None):
                 if d["op"] in ("setitem", "attsmut"):
                     findings.append(("step %d: %s did not raise: %r" % (i, d["op"], d), d))
                     # the value may now be outside what the model can express: report and stop this program here
-                    # (the replayed witness of the known finding D24 goes on, its arguments stay inside the model)
-                    stop = case.get("kind") != "witness"
+                    stop = True
         except Exception as e:  # noqa: BLE001
             res = wire.exc_kind(e)
             kind, val = "raised", None
@@ -499,9 +488,8 @@ def run_program(case, collect=None):
                     if m != fresh_color_str(*ck):
                         findings.append(("step %d (%s): color_str memo of a run of pool[%d] is %r, fresh %r" % (i, d["op"], k, m, fresh_color_str(*ck)), d))
             ents.append(entry(p, key, v))
-        # D1 = "the model's operation follows the discipline" - expected for every step except the known in-place
-        # re-initialisation of an attribute dict (D24), which the checked interpreter must refuse
-        dflag = "D0" if (d["op"] == "attsmut" and d["name"] == "__init__" and res == "returned") else "D1"
+        # D1 = "the model's operation follows the discipline" - expected for every step
+        dflag = "D1"
         if res == "returned":
             res = "r0"
         steps_out.append("%s %s # %s" % (res, dflag, " ".join(ents)))
@@ -849,8 +837,7 @@ def make_line(case):
 
 def mk_cases(ctx, nprog=None):
     muts_all = dict_mutators()
-    open_ids = {e["id"] for e in lib.known_findings(PROP) if e.get("status") == "open"}
-    muts = [m for m in muts_all if not (m[0] == "__init__" and KNOWN_INIT_ID in open_ids)]
+    muts = muts_all
     cases = gen_scenarios(ctx.thorough)
     ctx.exhaustive.append("scenarios: %d aliasing operations x %d observation sets before x %d follow-ups = %d programs"
                           % (len(ALIASING), len(cases) // (len(ALIASING) * len(FOLLOW)), len(FOLLOW), len(cases)))
@@ -917,22 +904,8 @@ def guard_oracle(c):
     return None
 
 
-def witness_cases():
-    """the Lean witness C13_init_witness (f = bold(red('a')); str(f); f.chunks[0].atts.__init__({'bold': False})) and
-    two variations, replayed on the real code: model and code must agree that the dict changes in place"""
-    out = []
-    for chunks, args in (([("a", {"fg": 31, "bold": True})], [{"bold": False}]),
-                         ([("ab", {}), ("c", {"bg": 44})], [[["italic", True]]]),
-                         ([("a", {"fg": 31})], [])):
-        steps = [dict(op="lit", chunks=chunks), dict(op="str", a=0), dict(op="copy", a=0),
-                 dict(op="attsmut", a=0, k=0, name="__init__", args=args), dict(op="len", a=1), dict(op="add", a=0, b=1)]
-        out.append(dict(kind="witness", steps=steps))
-    return out
-
-
 def footprint(case, what):
-    if isinstance(case, dict) and case.get("g") == "attsmut" and case.get("name") == "__init__" and "did not raise" in what:
-        return KNOWN_INIT_ID
+    """no open known finding for C13: every failing case is an unlisted violation"""
     return None
 
 
@@ -966,13 +939,6 @@ def check(ctx):
             ctx.violation(what, small, footprint(d, what) if d else None)
     ctx.exhaustive.append("oracle-only programs (splice with end < start, lazily consumed width_aware_splitlines): %d" % len(oracle_cases))
     ctx.note("dict mutators found in dir(dict) at run time: %s" % sorted({m[0] for m in muts_all}))
-    if KNOWN_INIT_ID in {e["id"] for e in lib.known_findings(PROP) if e.get("status") == "open"}:
-        wcs = witness_cases()
-        for c in wcs:
-            c["line"] = make_line(c)
-        ctx.tie("C13/D24-witness", wcs, lambda c: c["line"], lambda c: run_program(c)[0], canon, canon)
-        for c in wcs:
-            ctx.count(dict(kind="witness", steps=c["steps"]), nontrivial=True, tag="witness")
     gcs = guard_cases(muts_all)
     ctx.exhaustive.append("guards: f[0]='x', f[0:1]='x', del f[0], c.atts={}, c.s='x' and %d (method, args) mutators x 3 values x memo "
                           "filled/unfilled = %d cases" % (len(muts_all), len(gcs)))
